@@ -54,7 +54,7 @@ def check_assignment(desc, a, where):
             raise Violation(f"assignment:violates-{c[0]}", {"where": where, "constraint": c, "assignment": a})
 
 
-def solve_once(desc, solver, solution_limit, hints, ctx):
+def solve_once(desc, solver, solution_limit, hints, ctx, again=None):
     try:
         m, _ = cp_sem.build(desc)
     except cp_sem.Unbuildable:
@@ -62,7 +62,12 @@ def solve_once(desc, solver, solution_limit, hints, ctx):
     kw = {}
     if hints is not None:
         kw["hints"] = hints
-    return ctx.call(m.solve, solver=solver, solution_limit=solution_limit, **kw)
+    res = ctx.call(m.solve, solver=solver, solution_limit=solution_limit, **kw)
+    if again:
+        # the same Model object solved a second time (encoding leaves auxiliary variables behind): same verdict
+        res2 = ctx.call(m.solve, solver=again, solution_limit=1)
+        return res, res2
+    return res
 
 
 def run(case, ctx):
@@ -71,7 +76,7 @@ def run(case, ctx):
         raise Discard()
     sols = cp_sem.solution_set(desc)
     hints = make_hints(case, sols)
-    res = solve_once(desc, case["solver"], case["solution_limit"], hints, ctx)
+    res, res_again = solve_once(desc, case["solver"], case["solution_limit"], hints, ctx, again=("sat", "dfs", "auto")[case["hints"]["pick"] % 3])
     status = res.status.name
     kinds = {c[0] for c in desc["cons"]}
     shared = any(cp_sem.con_vars(c1) & cp_sem.con_vars(c2) for i, c1 in enumerate(desc["cons"]) for c2 in desc["cons"][i + 1 :])
@@ -104,6 +109,15 @@ def run(case, ctx):
     else:
         raise Violation("verdict:unexpected-status", {"status": status})
 
+    # second solve of the same model object
+    st2 = res_again.status.name
+    if st2 == "INFEASIBLE" and sols:
+        raise Violation("resolve:INFEASIBLE-on-second-solve-of-same-model", {"first": status, "n_solutions": len(sols)})
+    if st2 in ("OPTIMAL", "FEASIBLE"):
+        if res_again.solution is None:
+            raise Violation("verdict:usable-status-without-solution", {"status": st2, "where": "second solve"})
+        check_assignment(desc, res_again.solution, "second-solve")
+
     # back-ends agree on satisfiability (fresh models: encoding mutates the model)
     verdicts = {}
     for solver in ("dfs", "sat"):
@@ -119,4 +133,4 @@ def run(case, ctx):
         raise Violation("backends:both-wrong-on-satisfiability", {"claimed": verdicts["dfs"], "truth": bool(sols)})
 
 
-SUBS = [Sub("model_solve", run, strategy=lambda tier: cpmodel.solve_case(), quick=500, thorough=5000, workers_quick=4)]
+SUBS = [Sub("model_solve", run, strategy=lambda tier: cpmodel.solve_case(), quick=2500, thorough=8000, workers_quick=4)]
